@@ -300,6 +300,7 @@ func (w *c11World) round(t *rapid.T) {
 	}
 	c11Mu.Unlock()
 	w.hist = append(w.hist, fmt.Sprintf("round(%s)", strings.Join(plan, " ")))
+	roundStart := time.Now()
 	var ok bool
 	func() {
 		defer func() {
@@ -322,7 +323,7 @@ func (w *c11World) round(t *rapid.T) {
 	for _, f := range w.fakes {
 		d := f.Dials() - dialsBefore[f]
 		if d > 1 {
-			w.fail("server %x.. was dialled %d times in one round", f.Key.Pub[:3], d)
+			w.fail("server %x.. was dialled %d times in one round (round started %s; accept log %v)", f.Key.Pub[:3], d, roundStart.Format("15:04:05.000000"), f.AcceptLog())
 		}
 		if d > 0 && bannedBefore[f.Key.Pub] {
 			w.fail("server %x.. was dialled although the client knew it as banned", f.Key.Pub[:3])
